@@ -6,6 +6,7 @@ import (
 	"fmt"
 	"go/token"
 	"sort"
+	"strings"
 
 	"golang.org/x/tools/go/ssa"
 )
@@ -175,6 +176,21 @@ func (fr *frame) invEnv(l *loopInfo, st *State, env map[ssa.Value]Val) *TEnv {
 			}
 		}
 	}
+	// address-taken locals declared before the loop, by their source names
+	for _, b := range fr.fn.Blocks {
+		if b != l.header && !b.Dominates(l.header) {
+			continue
+		}
+		for _, ins := range b.Instrs {
+			if a, ok := ins.(*ssa.Alloc); ok && a.Comment != "" && a.Comment != "complit" && a.Comment != "varargs" {
+				if v, ok := env[a]; ok {
+					if _, taken := te.vars[a.Comment]; !taken {
+						te.bind(a.Comment, v, a.Type())
+					}
+				}
+			}
+		}
+	}
 	for _, ins := range l.header.Instrs {
 		phi, ok := ins.(*ssa.Phi)
 		if !ok {
@@ -240,6 +256,8 @@ func (fr *frame) cutLoopHeader(l *loopInfo, cur *State, env map[ssa.Value]Val, r
 	// 2. modified set by a speculative pass over the loop body
 	nAssert, nObl := len(vc.asserts), len(vc.obls)
 	notes := len(vc.notes)
+	nDecl := len(vc.decls)
+	nLog := len(vc.writeLog)
 	vc.quiet++
 	var order []nkey
 	for _, n := range fr.order {
@@ -254,6 +272,8 @@ func (fr *frame) cutLoopHeader(l *loopInfo, cur *State, env map[ssa.Value]Val, r
 	rc := &runCtx{region: l.blocks, header: l.header}
 	fr.run(order, map[nkey][]edgePayload{{l.header.Index, 0}: {{cond: "true", st: cur.clone(), env: envCopy}}}, rc)
 	vc.quiet--
+	specLog := append([]writeRec{}, vc.writeLog[nLog:]...)
+	vc.writeLog = vc.writeLog[:nLog]
 	vc.asserts = vc.asserts[:nAssert]
 	vc.obls = vc.obls[:nObl]
 	if len(vc.notes) > notes {
@@ -299,8 +319,40 @@ func (fr *frame) cutLoopHeader(l *loopInfo, cur *State, env map[ssa.Value]Val, r
 	}
 	sort.Strings(hk)
 	for _, k := range hk {
-		vc.heapGet(cur, k, vc.heapSorts[k])
+		pre := vc.heapGet(cur, k, vc.heapSorts[k])
+		// which pre-existing objects may the loop write? (from the speculative pass's write log)
+		whole := false
+		var refs []string
+		seen := map[string]bool{}
+		for _, w := range specLog {
+			if w.heap != k {
+				continue
+			}
+			if w.ref == "*" {
+				whole = true
+				break
+			}
+			if idx, isAlloc := vc.allocNames[w.ref]; isAlloc && idx >= nDecl {
+				continue // object allocated inside the loop
+			}
+			if !vc.preLoopTerm(w.ref, nDecl) {
+				whole = true
+				break
+			}
+			if !seen[w.ref] {
+				seen[w.ref] = true
+				refs = append(refs, w.ref)
+			}
+		}
 		vc.heapHavoc(cur, k)
+		if !whole {
+			nw := cur.heaps[k]
+			conds := []string{"(> r!f 0)", "(<= r!f " + cur.alloc + ")"}
+			for _, r := range refs {
+				conds = append(conds, "(not (= r!f "+r+"))")
+			}
+			vc.assume("true", "(forall ((r!f Int)) (! (=> (and "+strings.Join(conds, " ")+") (= (select "+nw+" r!f) (select "+pre+" r!f))) :pattern ((select "+nw+" r!f))))")
+		}
 	}
 	var gk []string
 	for k := range modG {
@@ -334,4 +386,14 @@ func (fr *frame) loopStep(l *loopInfo, st *State, env map[ssa.Value]Val, cond st
 		}
 		vc.oblige("loop-step", fmt.Sprintf("%s#loop-step:loop%d", shortFn(fr.fn), l.ordinal), pos, "invariant "+c.Text+" ["+c.Src+"]", cond, te.formula(c.E), c.Tags)
 	}
+}
+
+// preLoopTerm: does term mention only symbols declared before position nDecl?
+func (vc *VC) preLoopTerm(term string, nDecl int) bool {
+	for _, tok := range strings.FieldsFunc(term, func(r rune) bool { return r == '(' || r == ')' || r == ' ' }) {
+		if idx, ok := vc.declIndex[tok]; ok && idx >= nDecl {
+			return false
+		}
+	}
+	return true
 }
